@@ -1,5 +1,6 @@
 SPECIFICATION Spec
-CONSTANTS NP = 1 MaxRuns = 3 MaxTouch = 99
+CONSTANTS MaxRuns = 3 MaxTouch = 99
+  Scens <- ScenPlain1
   Settings <- SettingsDefault
   CreatedSetsChanged = FALSE
   KeepHistory = FALSE
@@ -11,4 +12,5 @@ INVARIANT ChangedOK
 INVARIANT NoRedo
 INVARIANT NoRedoPlot
 INVARIANT SkippedUntouched
+INVARIANT GroupRedone
 CHECK_DEADLOCK FALSE
